@@ -163,7 +163,7 @@ read_h!(c01_read_empty_buffer, F352, 3, 1300, 77, (0, 3), 0);
 /// linked after the tail, end-of-chain marked), the FAT frame, that only FAT and
 /// the file's own clusters are written, and that nothing else on the volume
 /// (root directory, other clusters) changes.
-fn write_case(fat: [u16; 4], first: u32, size: u32, offset: u32, cursor: (u32, u32), len: usize, mode: Mode) {
+fn write_case(fat: [u16; 4], first: u32, size: u32, offset: u32, cursor: (u32, u32), len: usize, mode: Mode, ghost: bool) {
     let mut blocks = image16(fat);
     let mut c = 0;
     while c < 4 {
@@ -197,6 +197,18 @@ fn write_case(fat: [u16; 4], first: u32, size: u32, offset: u32, cursor: (u32, u
         crate::fat::vk_fatx::GALLOC_QUEUE = q;
         crate::fat::vk_fatx::GALLOC_N = 0;
     }
+    if ghost {
+        // the FAT lives in the ghost table (next_cluster / alloc_cluster stubbed)
+        let mut g = [0u32; 8];
+        g[0] = 0x0FFF_FFF8;
+        g[1] = 0x0FFF_FFFF;
+        let mut cc = 0;
+        while cc < 4 {
+            g[2 + cc] = if fat[cc] >= 0xFFF8 { 0x0FFF_FFFF } else { fat[cc] as u32 };
+            cc += 1;
+        }
+        crate::fat::vk_fatx::ghost_fat_set(g);
+    }
     let other = file_info(11, 0, 0, 0, (0, 0), Mode::ReadWriteAppend, 2);
     let vm = vm_with(blocks, &[file_info(10, first, size, offset, cursor, mode, 1), other]);
     let f = RawFile(Handle(10));
@@ -218,10 +230,19 @@ fn write_case(fat: [u16; 4], first: u32, size: u32, offset: u32, cursor: (u32, u
     let fits = grow as u32 <= nfree;
     let fatpost = dev.block(G16A_FAT);
     let mut fat1 = [0u16; 4];
+    let g1 = crate::fat::vk_fatx::ghost_fat_get();
     c = 0;
     while c < 4 {
-        fat1[c as usize] = le16(&fatpost.contents, 4 + 2 * c as usize);
+        fat1[c as usize] = if ghost {
+            if g1[2 + c as usize] >= 0x0FFF_FFF8 { 0xFFFF } else { g1[2 + c as usize] as u16 }
+        } else {
+            le16(&fatpost.contents, 4 + 2 * c as usize)
+        };
         c += 1;
+    }
+    if ghost && grow > 0 && have > 0 {
+        // the allocator was asked to link the new cluster behind the chain's tail
+        assert!(crate::fat::vk_fatx::ghost_alloc_prev(0) == chain0[have - 1], "file.chain: new cluster not linked behind the last cluster of the chain");
     }
     let first1 = fi.entry.cluster.0;
     let (chain1, n1) = chain_of(&fat1, first1);
@@ -327,7 +348,7 @@ macro_rules! write_h {
         #[kani::unwind(2050)]
         #[kani::stub(crate::fat::FatVolume::alloc_cluster, crate::fat::vk_fatx::stub_alloc_cluster)]
         fn $name() {
-            write_case($fat, $first, $size, $off, $cur, $len, $mode);
+            write_case($fat, $first, $size, $off, $cur, $len, $mode, false);
         }
     };
 }
@@ -816,4 +837,49 @@ fn c07_file_is_open_identity() {
     assert!(r == same_slot, "modes.open_identity: a file is open iff an open handle designates the same volume and directory slot");
     kani::cover!(r && e.cluster.0 == 0 && e.size == 0);
     kani::cover!(!r && vol == 1);
+}
+
+
+// extending writes over the ghost FAT: next_cluster and alloc_cluster stubbed
+macro_rules! write_g_h {
+    ($name:ident, $fat:expr, $first:expr, $size:expr, $off:expr, $cur:expr, $len:expr, $mode:expr) => {
+        #[kani::proof]
+        #[kani::unwind(2050)]
+        #[kani::stub(crate::fat::FatVolume::alloc_cluster, crate::fat::vk_fatx::stub_alloc_ghost)]
+        #[kani::stub(crate::fat::FatVolume::next_cluster, crate::fat::vk_fatx::stub_next_cluster)]
+        fn $name() {
+            write_case($fat, $first, $size, $off, $cur, $len, $mode, true);
+        }
+    };
+}
+write_g_h!(c01_gwrite_extend_one, F35, 3, 1024, 1024, (512, 5), 10, Mode::ReadWriteAppend);
+write_g_h!(c01_gwrite_extend_stale_cursor, F352, 3, 1536, 1536, (0, 3), 4, Mode::ReadWriteAppend);
+write_g_h!(c01_gwrite_first_cluster, FNONE, 0, 0, 0, (0, 0), 5, Mode::ReadWriteCreate);
+write_g_h!(c01_gwrite_extend_two, F35, 3, 1024, 1000, (512, 5), 600, Mode::ReadWriteAppend);
+write_g_h!(c05_gwrite_last_free_cluster, F35_ONE, 3, 1024, 1024, (512, 5), 512, Mode::ReadWriteAppend);
+write_g_h!(c05_gwrite_disk_full_partial, F35_ONE, 3, 1024, 1000, (512, 5), 600, Mode::ReadWriteAppend);
+write_g_h!(c05_gwrite_disk_full_none, F35_FULL, 3, 1024, 1024, (512, 5), 4, Mode::ReadWriteAppend);
+
+// ------------------------------------------- delete releases the clusters ---
+/// delete_file_in_dir of a closed 2-cluster file (chain 3 -> 5), directory
+/// operations scripted, FAT = ghost FAT: after a successful delete the file's
+/// clusters are free again (C05: "deleting a file makes its clusters available").
+#[kani::proof]
+#[kani::unwind(12)]
+#[kani::stub(crate::fat::FatVolume::find_directory_entry, crate::fat::vk_fatx::stub_find_directory_entry)]
+#[kani::stub(crate::fat::FatVolume::delete_directory_entry, crate::fat::vk_fatx::stub_delete_directory_entry)]
+#[kani::stub(crate::fat::FatVolume::next_cluster, crate::fat::vk_fatx::stub_next_cluster)]
+#[kani::stub(crate::fat::FatVolume::update_fat, crate::fat::vk_fatx::stub_update_fat)]
+fn c05_delete_releases_clusters() {
+    let blocks: [Block; G16A_N] = zero_blocks();
+    crate::fat::vk_fatx::ghost_fat_set([0x0FFF_FFF8, 0x0FFF_FFFF, 0x0FFF_FFFF, 5, 0x0FFF_FFFF, 0x0FFF_FFFF, 0, 0]);
+    crate::fat::vk_fatx::script_set(3);
+    let vm = vm_with(blocks, &[]);
+    let r = vm.delete_file_in_dir(RawDirectory(Handle(2)), ShortFileName { contents: *b"GONE    DAT" });
+    assert!(r.is_ok(), "delete: closed file not deleted");
+    assert!(crate::fat::vk_fatx::script_deletes() == 1, "delete: directory entry not removed exactly once");
+    let g = crate::fat::vk_fatx::ghost_fat_get();
+    assert!(g[3] == 0 && g[5] == 0, "space.reclaim: clusters of a deleted file are still marked in use (leaked)");
+    assert!(g[2] == 0x0FFF_FFFF && g[4] == 0x0FFF_FFFF, "fat.frame: delete changed another file's FAT entries");
+    kani::cover!(r.is_ok());
 }
